@@ -96,7 +96,7 @@ theorem touch_eq {now T : Nat} {e : Sess} (k : Kind) (ok : Bool) (hr : e.removed
     (hrp : e.timer ≠ .nil → e.refs = e.posts) (harm : ∀ d, e.timer = .armed d → e.refs = 0) :
     tryF (endPost now T false) (hdK k (ok && !e.closing) (startPost ok k e)) =
       touchE now T (k == .init && ok && !e.closing) e := by
-  rcases e with ⟨id, owner, refs, timer, closing, removed, inMap, pending, initialized, creating, busy, initBusy, posts, idleSince, closeErr⟩
+  rcases e with ⟨id, owner, refs, timer, closing, removed, inMap, pending, initialized, creating, busy, initBusy, posts, idleSince, closeErr, upl⟩
   simp only [] at hr hcr hrp harm
   subst hr; subst hcr
   cases ok <;> cases closing <;> cases k <;> cases timer <;>
@@ -113,7 +113,7 @@ def pendE (e : Sess) : Sess :=
   | t => { e with posts := e.posts + 1, refs := e.refs + 1, timer := if e.refs = 0 then .stopped else t, busy := e.busy + 1 }
 
 theorem pend_eq {e : Sess} (hc : e.closing = false) : startPost true .call e = pendE e := by
-  rcases e with ⟨id, owner, refs, timer, closing, removed, inMap, pending, initialized, creating, busy, initBusy, posts, idleSince, closeErr⟩
+  rcases e with ⟨id, owner, refs, timer, closing, removed, inMap, pending, initialized, creating, busy, initBusy, posts, idleSince, closeErr, upl⟩
   simp only [] at hc
   subst hc
   cases timer <;> simp [startPost, startTimer, deliver, pendE]
@@ -128,7 +128,7 @@ def endE (now T : Nat) (e : Sess) : Sess :=
 
 theorem endPost_eq {now T : Nat} {e : Sess} (hp : e.posts ≠ 0) (hcr : e.creating = false) :
     tryF (endPost now T false) e = endE now T e := by
-  rcases e with ⟨id, owner, refs, timer, closing, removed, inMap, pending, initialized, creating, busy, initBusy, posts, idleSince, closeErr⟩
+  rcases e with ⟨id, owner, refs, timer, closing, removed, inMap, pending, initialized, creating, busy, initBusy, posts, idleSince, closeErr, upl⟩
   simp only [] at hp hcr
   subst hcr
   cases timer <;> simp [tryF, endPost, endE, hp] <;> (by_cases h0 : refs - 1 = 0 <;> simp [h0])
